@@ -23,7 +23,9 @@
 (***************************************************************************)
 EXTENDS Monitor
 
-CONSTANT KnownSigs   \* set of "<property>|<signature>" strings of known findings
+CONSTANT KnownSigs,  \* set of "<property>|<signature>" strings of known findings
+         TrackHist   \* TRUE: record the schedule / last events (observation variables, hidden by VIEW);
+                     \* FALSE for liveness checking, where TLC cannot use a VIEW
 
 VARIABLES sid,      \* index into ScenTab
           hw, hr,   \* raw lock environment: exclusive holder / shared-hold count per leaf
@@ -454,8 +456,8 @@ Step(t) ==
   /\ LET ns == StepOf(d, t) IN
      /\ Apply(d, t, ns)
      /\ mon' = MonFold(mon, ns.S.evs)
-     /\ last' = ns.S.evs
-  /\ hist' = Append(hist, t)
+     /\ last' = IF TrackHist THEN ns.S.evs ELSE <<>>
+  /\ hist' = IF TrackHist THEN Append(hist, t) ELSE hist
   /\ UNCHANGED sid
 
 AllDone == \A t \in Threads(D(sid)) : th[t].fin
@@ -464,12 +466,17 @@ AllDone == \A t \in Threads(D(sid)) : th[t].fin
 Finish ==
   /\ AllDone /\ ~mon.ended
   /\ mon' = MonStep(mon, [e |-> "end"])
-  /\ last' = <<[e |-> "end"]>>
+  /\ last' = IF TrackHist THEN <<[e |-> "end"]>> ELSE <<>>
   /\ UNCHANGED <<sid, hw, hr, th, kf, val, pflag, killed, nops, hist>>
 
 Next == (\E t \in 1..D(sid).nt : Step(t)) \/ Finish
 
 Spec == Init /\ [][Next]_vars /\ \A t \in 1..4 : WF_vars(Step(t))
+
+\* C01 as a liveness property of the model: under weak fairness of every thread (and of the closing
+\* step) every execution of a family WITHOUT retrying collections terminates.  (A retrying collection
+\* admits the documented lock-step livelock; for it the claim is C09.)
+Terminates == <>(mon.ended)
 
 (***************************************************************************)
 (* Properties checked on the model itself                                  *)
